@@ -317,21 +317,21 @@ func (w *world) builtins() starlark.StringDict {
 // ---------------------------------------------------------------- simulated processes
 
 type procCfg struct {
-	Strategy    int
-	Sticky      int
-	PCTDepth    int
-	NumCPU      int
-	CrashAt     int
-	TornFrac    int
-	IOErrAt     map[int]int
-	IOErrPM     int
-	IOErrFrom   int // from this I/O operation on, creating and writing fail with ENOSPC
-	CondAny     bool
-	UnlockY     bool `json:"unlock_yields,omitempty"`
+	Strategy  int
+	Sticky    int
+	PCTDepth  int
+	NumCPU    int
+	CrashAt   int
+	TornFrac  int
+	IOErrAt   map[int]int
+	IOErrPM   int
+	IOErrFrom int // from this I/O operation on, creating and writing fail with ENOSPC
+	CondAny   bool
+	UnlockY   bool `json:"unlock_yields,omitempty"`
 	// GCHammer: while the case runs the Go runtime collects garbage all the time (GOGC=1 and a
 	// goroutine outside the simulator that calls runtime.GC in a loop). Garbage collection is
 	// the one source of nondeterminism the simulator cannot own; see DESIGN.md 12.2.
-	GCHammer bool `json:"gc_hammer,omitempty"`
+	GCHammer    bool `json:"gc_hammer,omitempty"`
 	ReadDirPerm bool
 	SplitWrites bool
 	MapFixed    bool
